@@ -371,3 +371,7 @@ mod tests {
         assert_eq!(result.port, 568);
     }
 }
+
+#[cfg(all(test, feature = "pendulum_project_ntpd_rs_verif"))]
+#[path = "../../../../verif/harness/ntpd/daemon_keyexchange.rs"]
+mod verif_daemon_keyexchange;
